@@ -62,6 +62,16 @@ Theorem C03_paths_agree_restart : forall v iv rq start xs o max,
 Proof. exact read_paths_agree_restart. Qed.
 Print Assumptions C03_paths_agree_restart.
 
+(* (5) RestoreFromS3 lists with the prefix "<namespace>/<topic>/<partition>/": the segment
+   key of ANOTHER partition of the same topic never matches it (1 vs 10..19, ...), so a
+   rebuilt log registers only its own partition's objects.  (Topic and namespace
+   separation needs names without "/", C22; the harness keeps order/orders/orders2 and
+   n/ns/ns2 live and compares the real listing with [list_segments].) *)
+Theorem C03_listing_isolated : forall ns topic p p' base,
+  has_prefix (part_prefix ns topic p) (seg_key ns topic p' base) = true -> p = p'.
+Proof. exact listing_isolated. Qed.
+Print Assumptions C03_listing_isolated.
+
 (* header / footer lengths the slicing relies on *)
 Theorem C03_segment_layout : forall b c t crc last,
   zlen (build_header b c t) = segment_header_len /\ zlen (build_footer crc last) = segment_footer_len.
